@@ -64,6 +64,24 @@ theorem c12_sendq_batch (gs gr : Cfg) (es er : Env) (hkeys : ∀ i, (es.keyAt i)
   obtain ⟨hw, hsub⟩ := appWritesQ_eq gs es size hmf ms {} qlen
   exact c12_roundtrip gs gr es er hkeys hmf hcomp hrl _ (fun m hm => hok m (hsub m hm)) segs (by rw [hsegs, hw])
 
+/-- C12 (the same about the function the model driver runs on a `B` line of a `sendq=` case, `Ws.batchQ`): the deflater is
+    observed per message (`defls`, the `defl=` annotation: the i-th compressible message of the batch gets the i-th reported
+    output).  If those outputs are the outputs of a function of the payload (`DeflTable`: no more is assumed about
+    `compress/flate` here; the round-trip law is in `MsgOK.codec`), then for every queue size and fill the receiver is handed
+    exactly the data messages of the batch whose call returned 0 (`acceptedOf`), each once, in order, unchanged, without
+    error, in every segmentation of the bytes `batchQ` says were handed to the conn writer. -/
+theorem c12_sendq_batch_driver (gs gr : Cfg) (base er : Env) (defl : Bytes → Bytes) (defls : List Bytes)
+    (hkeys : ∀ i, (base.keyAt i).length = 4) (hmf : gs.maxFrame > 0)
+    (hcomp : gs.writeCompression = true → gr.enableCompression = true) (hrl : gr.readLimit = 0)
+    (size qlen : Nat) (ms : List (Nat × Bytes)) (htab : DeflTable gs defl defls 0 ms)
+    (hok : ∀ m ∈ ms, MsgOK gs gr { base with deflate := defl } er m.1 m.2)
+    (segs : List Bytes) (hsegs : segs.flatten = (batchQ gs base defls size {} 0 qlen ms).wire) :
+    delivs (feed gr er {} segs []).acts = dataOf (acceptedOf ms (batchQ gs base defls size {} 0 qlen ms).codes) ∧
+    (feed gr er {} segs []).err = none := by
+  obtain ⟨hw, ha⟩ := batchQ_eq gs base defl defls size ms {} 0 qlen htab
+  rw [ha]
+  exact c12_sendq_batch gs gr { base with deflate := defl } er hkeys hmf hcomp hrl size qlen ms hok segs (by rw [hsegs, hw])
+
 /-- … because the admission check counts what the fragmentation loop will write: `⌈n / maxFrame⌉` frames for the `n` bytes of
     the payload AFTER compression (one frame for an empty payload) -/
 theorem c12_sendq_frames (g : Cfg) (e : Env) (i op : Nat) (data : Bytes) (ws : List Bytes) (hmf : g.maxFrame > 0)
